@@ -95,6 +95,12 @@ def origins(body, x, depth=12, transparent=TRANSPARENT, _seen=None):
     if _seen is None:
         _seen = set()
     if "k" in x:
+        if x["k"] == "const" and "::promoted[" in (x.get("text") or ""):
+            import re as _re
+            m = _re.search(r"promoted\[(\d+)\]", x["text"])
+            pb = body.promoted(int(m.group(1))) if m and hasattr(body, "promoted") else None
+            if pb is not None:
+                return [Origin(o.kind, o.name, o.site, o.path, body, o.extra) for o in origins(pb, {"l": 0, "p": []}, depth - 1, transparent)]
         if x["k"] == "const":
             return [Origin("const", x.get("val") if x.get("val") is not None else (x.get("fn") or x.get("text")), body=body, extra=x)]
         if x["k"] in ("copy", "move"):
@@ -225,3 +231,37 @@ def switch_on(body, bb):
     if len(out) == 1:
         return out[0]
     return {"kind": "multi", "defs": out}
+
+
+EXTRA_ROOT_TRANSPARENT = {
+    "compaction::state::CompactionState::compaction_manifest_mut",
+    "compaction::state::CompactionState::compaction_manifest",
+}
+
+
+def roots(body, op, depth=10, seen=None, extra=EXTRA_ROOT_TRANSPARENT):
+    """Locals from which an operand is derived through refs/derefs/moves/transparent calls."""
+    out = set()
+    if op["k"] not in ("copy", "move"):
+        return out
+    l = op["pl"]["l"]
+    seen = seen if seen is not None else set()
+    if l in seen or depth <= 0:
+        return out
+    seen.add(l)
+    out.add(l)
+    for d in body.defs().get(l, []):
+        if d[0] == "stmt":
+            rv = d[3]["rv"]
+            if rv["k"] in ("use", "cast") and rv["ops"][0]["k"] in ("copy", "move"):
+                out |= roots(body, rv["ops"][0], depth - 1, seen, extra)
+            elif rv["k"] in ("ref", "rawptr"):
+                out |= roots(body, {"k": "copy", "pl": rv["pl"]}, depth - 1, seen, extra)
+            elif rv["k"] == "aggregate" and len(rv["ops"]) == 1 and rv.get("variant") in ("Some", "Ok", "Err"):
+                out |= roots(body, rv["ops"][0], depth - 1, seen, extra)
+        elif d[0] == "call":
+            t = d[3]
+            nm = strip_generics(t.get("resolved") or t.get("callee"))
+            if (nm in TRANSPARENT or nm in extra) and t["args"]:
+                out |= roots(body, t["args"][0], depth - 1, seen, extra)
+    return out
